@@ -233,6 +233,13 @@ def r19_2(ctx):
                 init = args[1]
                 seeded = (init[0] == 'field' and init[1][0] == 'variant' and init[1][2] == 'Some' and any(is_call(x, '::next') for x in walk(init))) or \
                     (init[0] != 'const' and any(is_call(x, '::split_first') or is_call(x, '::first') for x in walk(init)))
+                by_index = [x for x in walk(init) if x[0] == 'index' and (x[2] in (('const', 0), '[0]'))]
+                if not seeded and by_index:
+                    # `fold(outputs[0].value, ..)`: fine only if the fold then runs over the REST
+                    recv = args[0]
+                    rest = any(is_call(x, 'Iterator::skip') for x in walk(recv)) or any(x[0] == 'agg' and x[1].endswith('ops::RangeFrom') and dict(x[2]).get('start') == ('const', 1) for x in walk(recv))
+                    ctx.check(R, rest, 'fold-seed', 'the fold over the values of one key is seeded with element 0 and then runs over ALL elements: the first value is merged twice (sum doubles it)', fn=un, at=t.get('span'))
+                    continue
                 if not seeded and init[0] != 'const' and const_like(init) is None:
                     ctx.undecided(R, 'fold-seed', 'the seed of the fold over the values of one key is neither a constant nor recognisably the first value: %s' % fmt(init)[:60], fn=un, at=t.get('span'))
                     continue
